@@ -1,7 +1,7 @@
 (* C07 property theorems. Statements only; proofs are `exact lemma`. Third-party compressors appear as universally
    quantified functions with their round-trip behaviour as premises. All theorems are for every input (no bound). *)
 From Coq Require Import ZArith List Bool.
-From OG Require Import C07.Model C07.ProofsBase C07.ProofsS8 C07.ProofsInt C07.ProofsBool C07.ProofsFloat C07.ProofsString.
+From OG Require Import C07.Model C07.ProofsBase C07.ProofsS8 C07.ProofsInt C07.ProofsBool C07.ProofsFloat C07.ProofsString C07.ProofsSeg.
 Import ListNotations.
 Open Scope Z_scope.
 
@@ -93,6 +93,24 @@ Theorem C07_string_block_roundtrip : forall (cc : smode -> list Z -> list Z) (cd
   forall m ss, ss <> [] -> string_applicable cc m ss = true -> string_dec cd (string_enc_with cc m ss) = Some ss.
 Proof. exact string_block_roundtrip. Qed.
 Print Assumptions C07_string_block_roundtrip.
+
+(* ---- column segment: one-row mode and column header (full / empty / null bitmap with any offset and padding) ---- *)
+Theorem C07_segment_roundtrip : forall t m block rows, seg_applicable m rows = true ->
+  seg_dec t (len rows) (seg_enc_with t m block rows) = Some (validity rows, seg_payload m block rows).
+Proof. exact seg_roundtrip. Qed.
+Print Assumptions C07_segment_roundtrip.
+
+Theorem C07_segment_encode_total : forall rows, 0 < len rows < M32 - 16 ->
+  seg_applicable (HBitmap [] (repeat false (Z.to_nat ((8 - len rows mod 8) mod 8)))) rows = true.
+Proof. exact seg_bitmap_always_applicable. Qed.
+
+(* one-row mode is NOT applicable to a single non-null empty string: its block would read back as a null *)
+Example C07_ex_one_row_empty_string :
+  seg_applicable HOne [Some []] = false /\
+  seg_dec CString 1 (seg_enc_with CString HOne [] [Some []]) = Some ([false], []) /\
+  seg_applicable HOne [Some [104; 105]] = true /\ seg_applicable HFull [Some []] = true /\
+  seg_applicable (HBitmap [true; false] [false; false; false]) [None; Some [1]; None] = true.
+Proof. vm_compute. repeat split. Qed.
 
 (* ---- WAL record frame ---- *)
 Theorem C07_frame_roundtrip : forall (wc : list Z -> list Z) (wd : list Z -> option (list Z)),
